@@ -7,7 +7,8 @@ from common import case_rnd, skip
 import json, subprocess, warnings
 import sympy
 warnings.simplefilter("ignore")
-from pymablock.block_diagonalization import _symbolic_keys_to_tuples, _list_to_dict
+from pymablock.block_diagonalization import _symbolic_keys_to_tuples, _list_to_dict, _subspaces_from_indices
+import numpy as np
 
 NAMES = ["x", "y", "x10", "x2", "x1", "B", "b", "a", "A", "alpha", "α", "β", "k_x", "k_y", "Z", "zz", "_t", "t"]
 
@@ -19,6 +20,21 @@ def main(seed, ncases, driver, out):
     for c in range(ncases):
         if skip(c): continue
         rnd = case_rnd(seed, c)
+        if c % 5 == 3:
+            # `_subspaces_from_indices`: the columns of each block's eigenvector matrix = the states with that label, in order of appearance
+            nst = rnd.choice([1, 2, 5, 9, 17, 40]); nbl = rnd.randint(1, 4); labels = [rnd.randrange(nbl) for _ in range(nst)]
+            if rnd.random() < 0.3: labels = sorted(labels)
+            symbolic = rnd.random() < 0.3; dist["subspace_indices"] = dist.get("subspace_indices", 0) + 1; evals += 1
+            lab_in = labels if rnd.random() < 0.5 else (tuple(labels) if rnd.random() < 0.5 else np.array(labels))
+            vecs = _subspaces_from_indices(lab_in, symbolic=symbolic)
+            got = []
+            for v in vecs:
+                m = v if isinstance(v, np.ndarray) else v.toarray()
+                ok01 = m.shape[0] == nst and np.all((m == 0) | (m == 1)) and np.all(m.sum(axis=0) == 1)
+                got.append(",".join(str(int(np.argmax(m[:, j]))) for j in range(m.shape[1])) if ok01 else "not-a-selection")
+            want = ask({"cmd": "keys", "labels": labels})
+            if ";".join(got) != want: failures.append({"case": c, "kind": "subspaces-differ", "labels": labels, "symbolic": symbolic, "impl": ";".join(got), "model": want})
+            continue
         if c % 5 == 4:
             n = rnd.randint(1, 6); got = _list_to_dict(list(range(n))); evals += 1; dist["list"] = dist.get("list", 0) + 1
             want = ask({"cmd": "keys", "list_len": n})
